@@ -187,6 +187,10 @@ def check_ddl(case, ctx):
     for k, (full, kind, gen) in model.items():
         got_err = r["errors"].get(k)
         got = r["names"].get(k)
+        if full is None and kind == "ix":
+            if got_err != "IndexWithoutName":
+                raise Violation("C21/ddl/unexpected-name", f"{k}: index without any name rendered {got!r} / {got_err}", observed=got, expected="CompileError (index needs a name)")
+            continue
         if full is None:
             if got is not None or got_err:
                 raise Violation("C21/ddl/unexpected-name", f"{k}: no convention and no explicit name, but rendered {got!r} / {got_err}", observed=got, expected=None)
@@ -309,13 +313,24 @@ def check_labels(case, ctx):
                 row = res.one()
         if rkeys != keys:
             raise Violation("C21/labels/result-keys-differ-from-compiled", f"{rkeys[:8]} vs {keys[:8]}", observed=rkeys[:40], expected=keys[:40])
+        # known finding: the Select-level de-duplication key ("x_1") of another column is also registered as a string key of
+        # the result and shadows an identically named compile-level anonymous label
+        sel_keys = [str(k) for k in stmt.selected_columns.keys()]
+        shadowed = {k for i, k in enumerate(keys) if any(sk == k and j != i for j, sk in enumerate(sel_keys))}
         for i, (k, ev) in enumerate(zip(keys, expected)):
+            if k in shadowed and not c.get("pinned"):
+                ctx.exclude("label equals the select-level proxy key of another column (known finding: string lookup returns the other column)")
+                continue
             if row[i] != ev:
                 raise Violation("C21/labels/wrong-value-at-position", f"position {i} ({k}): {row[i]!r} != {ev!r}", observed=row[i], expected=ev)
             try:
                 v = row._mapping[k]
             except exc.SQLAlchemyError as e:
                 raise Violation("C21/labels/value-not-retrievable-by-label", f"row._mapping[{k!r}] raised {type(e).__name__}: {e}", observed=str(e)[:300], expected=ev)
+            if v != ev and k in shadowed:
+                raise Violation("C21/labels/select-proxy-key-shadows-generated-label",
+                                f"row._mapping[{k!r}] = {v!r} but the column rendered 'AS {k}' has value {ev!r}: another column's select-level key {k!r} is registered for string lookup too",
+                                observed=v, expected=ev)
             if v != ev:
                 raise Violation("C21/labels/wrong-value-by-label", f"row._mapping[{k!r}] = {v!r}, the element labelled so has value {ev!r}", observed=v, expected=ev)
     finally:
@@ -342,27 +357,32 @@ _shortname = st.tuples(st.integers(1, 12), st.integers(0, 255), st.integers(0, 5
 
 @st.composite
 def _ddl_cases(draw):
-    long_bias = draw(st.booleans())
+    collide = draw(st.integers(0, 3)) > 0  # long table name + conventions that start with it + a small limit
+    long_bias = collide or draw(st.booleans())
     nm = _namespec if long_bias else st.one_of(_namespec, _shortname)
-    share = draw(st.booleans())  # columns share one prefix family and length -> colliding prefixes
+    share = collide or draw(st.booleans())  # columns share one prefix family and length -> colliding prefixes
 
     def col():
         s = draw(nm)
         return s + [int(draw(st.integers(0, 4)) == 0)]
 
     tables = []
-    for ti in range(draw(st.integers(1, 2))):
+    for ti in range(draw(st.sampled_from([1, 2, 2]))):
         ncols = draw(st.integers(1, 5))
         cols = [col() for _ in range(ncols)]
         if share and ncols > 1:
             for cc in cols[1:]:
                 cc[0], cc[2] = cols[0][0], cols[0][2]
-        tables.append({"name": draw(nm), "cols": cols})
+        tname = draw(nm)
+        if collide:
+            tname[0] = draw(st.sampled_from([40, 64, 100, 130, 200]))
+        tables.append({"name": tname, "cols": cols})
+    lead = draw(st.sampled_from([["tok", "table_name"], ["tok", "table_name"], ["lit", 130, 7, draw(st.integers(0, 5))], ["tok", "column_0_label"]]))
 
     def tmpl(kind):
         toks = L.TOKENS_COMMON + (L.TOKENS_FK if kind == "fk" else [])
         n = draw(st.integers(1, 4))
-        parts = []
+        parts = [list(lead)] if collide else []
         for _ in range(n):
             if draw(st.integers(0, 3)) == 0:
                 parts.append(["lit", draw(st.sampled_from([2, 3, 10, 30, 60])), draw(st.integers(0, 255)), draw(st.integers(0, 5))])
@@ -375,14 +395,14 @@ def _ddl_cases(draw):
 
     conv = {}
     for kind in ("ix", "uq", "ck", "fk", "pk"):
-        if draw(st.integers(0, 4)) > 0:
+        if collide or draw(st.integers(0, 4)) > 0:
             conv[kind] = tmpl(kind)
     ns = st.one_of(st.none(), st.none(), st.tuples(st.sampled_from(["plain", "conv"]), st.sampled_from([3, 9, 10, 11, 30, 63, 64, 65, 127, 128, 129, 200]), st.integers(0, 255)).map(list))
     cons = []
-    for _ in range(draw(st.integers(1, 7))):
-        kind = draw(st.sampled_from(["uq", "ix", "ck", "fk", "colunique", "colindex", "uq", "ix"]))
+    for _ in range(draw(st.integers(3 if collide else 1, 7))):
+        kind = draw(st.sampled_from(["uq", "ix", "ck", "fk", "fk", "colunique", "colindex", "uq", "ix"]))
         cons.append([kind, draw(st.integers(0, 1)), draw(st.lists(st.integers(0, 4), min_size=1, max_size=3)), draw(ns)])
-    return {"dialect": draw(st.integers(0, 5)), "maxlen": draw(st.sampled_from(MAXLENS)), "conv": conv, "tables": tables, "cons": cons,
+    return {"dialect": draw(st.integers(0, 5)), "maxlen": draw(st.sampled_from(MAXLENS[2:] if collide and draw(st.booleans()) else MAXLENS)), "conv": conv, "tables": tables, "cons": cons,
             "pk": [draw(st.integers(1, 2)), draw(ns)], "strict_err": draw(st.integers(0, 9)) == 0}
 
 
@@ -424,9 +444,11 @@ def _label_cases(draw):
 _CHILD = "import sys; sys.path.insert(0, %r); from vf import purehook; purehook.install(); from checks import _c21lib; _c21lib.child_main()"
 
 
-def _run_child(batch, hashseed):
+def _run_child(batch, hashseed, scratch):
     verif = os.path.dirname(os.path.dirname(os.path.abspath(__file__)))
-    env = dict(os.environ, PYTHONHASHSEED=str(hashseed), PYTHONDONTWRITEBYTECODE="1")
+    # bytecode of the (pure-Python) library is cached under the shard's scratch dir so that only the first child compiles it
+    env = dict(os.environ, PYTHONHASHSEED=str(hashseed), PYTHONPYCACHEPREFIX=os.path.join(scratch, "pyc"))
+    env.pop("PYTHONDONTWRITEBYTECODE", None)
     p = subprocess.run([sys.executable, "-c", _CHILD % verif], input=json.dumps(batch), capture_output=True, text=True, env=env, cwd=verif)
     if p.returncode != 0:
         raise HarnessError(f"child failed rc={p.returncode}: {p.stderr[-1500:]}")
@@ -449,7 +471,7 @@ def check_xproc(case, ctx):
     n_named = sum(1 for m in mine for v in (m.get("names") or {}).values() if v)
     ctx.note(case, n_named >= 2 or len(case["sel"]) > 0, classes=[f"batch={len(batch)}"])
     for hs in (1, 424242):
-        theirs = _run_child(batch, hs)
+        theirs = _run_child(batch, hs, ctx.scratch)
         for i, (a, b) in enumerate(zip(mine, theirs)):
             if a != b:
                 what = batch[i][0]
@@ -463,12 +485,13 @@ def check_xproc(case, ctx):
 
 @st.composite
 def _xproc_cases(draw):
-    return {"ddl": draw(st.lists(_ddl_cases(), min_size=6, max_size=6)), "sel": draw(st.lists(_label_cases(), min_size=4, max_size=4))}
+    # one child process per hash seed re-renders the whole batch (process start-up dominates the cost)
+    return {"ddl": draw(st.lists(_ddl_cases(), min_size=12, max_size=12)), "sel": draw(st.lists(_label_cases(), min_size=8, max_size=8))}
 
 
 def subs(tier):
     return [
-        Generated("ddl", check_ddl, strategy=_ddl_cases(), quick=700, thorough=50000),
-        Generated("labels", check_labels, strategy=_label_cases(), quick=500, thorough=30000),
-        Generated("xproc", check_xproc, strategy=_xproc_cases(), quick=32, thorough=600),
+        Generated("ddl", check_ddl, strategy=_ddl_cases(), quick=500, thorough=50000),
+        Generated("labels", check_labels, strategy=_label_cases(), quick=400, thorough=30000),
+        Generated("xproc", check_xproc, strategy=_xproc_cases(), quick=16, thorough=320),
     ]
